@@ -11,7 +11,7 @@ LEVEL = "exploration"
 RULE = ("(1) ovnievents output equals doc/user/emulation/events.md (build date line excepted); (2) every listed "
         "event of the 8 models is accepted by ovniemu -l inside a minimal legal context (recipe) with a payload "
         "of the declared shape, and ovnidump prints its description with %{arg}/%fmt{arg} replaced by generated "
-        "argument values, computed by an independent formatter of the template language; (3) every unlisted "
+        "argument values, computed by an independent formatter of the template language, one event at a time and in generated sequences of listed events of all models over 1-3 streams (neighbouring events sharing category/value characters); task-model events are also probed from cooling and warming threads, kernel events from paused ones; (3) every unlisted "
         "three-character code over the 95 printable characters (8 x 95 x 95 codes, exhaustive; each without payload and with the well-formed payload and context of every listed event of the same category) is rejected, "
         "apart from OB? / OU? (value byte ignored) and the legacy code 6TC.  Non-trivial = listed event with "
         ">= 1 argument or unlisted code in an existing category; distinct = (model, code).")
@@ -60,7 +60,7 @@ def encode_args(decl, values):
     return out
 
 
-_SPEC = re.compile(r"%([#0\- +]*)(\d*)(hh|h|ll|l|z|j)?([diuxXocs])?\{(\w+)\}")
+_SPEC = re.compile(r"%%|%([#0\- +]*)(\d*)(hh|h|ll|l|z|j)?([diuxXocs])?\{(\w+)\}")
 
 
 def c_format(flags, width, conv, v, is_str):
@@ -100,11 +100,12 @@ def expected_text(decl, values):
     byname = {n: (t, v) for (t, n), v in zip(decl.args, values)}
 
     def sub(m):
+        if m.group(0) == "%%":
+            return "%"          # only the template's own escapes, never inside substituted values
         flags, width, _ln, conv, name = m.groups()
         t, v = byname[name]
         return c_format(flags, width, conv or ("s" if t == "str" else "d"), v, t == "str")
-    s = _SPEC.sub(sub, decl.desc)
-    return s.replace("%%", "%")
+    return _SPEC.sub(sub, decl.desc)
 
 
 def recipe(mcv, regs):
@@ -175,6 +176,12 @@ def enum_listed(ctx):
             continue
         for k in range(3 if ctx.tier == "quick" else 40):
             yield {"mcv": d.mcv, "seed": k}
+        if d.model in ("V", "6"):
+            yield {"mcv": d.mcv, "seed": 1, "state": "cooling"}
+            yield {"mcv": d.mcv, "seed": 2, "state": "warming"}
+        if d.model == "K":
+            yield {"mcv": d.mcv, "seed": 1, "state": "paused"}
+            yield {"mcv": d.mcv, "seed": 2, "state": "cooling"}
 
 
 def gen_values(decl, seed):
@@ -212,6 +219,19 @@ def run_listed(case, ctx):
     evs = []
     if mcv != "OHx":
         evs.append(T.OHx(clk, 0))
+    # thread state in which the event is emitted: the task-based models accept their
+    # events from any ACTIVE thread (running, cooling, warming), the kernel model from any
+    ctx_state = case.get("state", "running")
+    closing = []
+    if ctx_state == "cooling":
+        evs.append(T.plain("OHc", clk + 1))
+    elif ctx_state == "warming":
+        evs += [T.plain("OHp", clk + 1), T.plain("OHw", clk + 2)]
+        closing = ["OHr"]
+    elif ctx_state == "paused":
+        evs.append(T.plain("OHp", clk + 1))
+        closing = ["OHr"]
+    clk += 3
     for x in pre:
         clk += 5
         evs.append(mk(x, clk))
@@ -229,6 +249,9 @@ def run_listed(case, ctx):
     for x in suf:
         clk += 5
         evs.append(mk(x, clk))
+    for x in closing:
+        clk += 5
+        evs.append(T.plain(x, clk))
     evs.append(T.plain("OHe", clk + 5))
     s = {"loom": "n.0", "pid": 1, "tid": 1, "app": 1, "cpus": [[0, 0], [1, 1]], "require": req, "events": evs,
          "extra": extra}
@@ -256,7 +279,8 @@ def run_listed(case, ctx):
             raise Violation("ovnidump decodes %s%s as %r, expected %r" % (mcv, vals, line, want))
     finally:
         ctx.rmdir(dd)
-    return {"nt": bool(d.args), "cls": ["listed:" + d.model], "key": "%s/%d" % (mcv, case["seed"])}
+    return {"nt": bool(d.args), "cls": ["listed:" + d.model, "state:" + case.get("state", "running")],
+            "key": "%s/%d/%s" % (mcv, case["seed"], case.get("state", "running"))}
 
 
 # ---- (3) unlisted codes ------------------------------------------------------------------
@@ -326,9 +350,64 @@ def run_unlisted(case, ctx):
     return {"nt": c in cats, "cls": ["unlisted:" + m], "key": m + c}
 
 
+@st.composite
+def dump_sequences(draw):
+    """Many listed events of all models, in generated order, over 1-3 streams with interleaved clocks."""
+    models, decls, bymcv = catalogue()
+    n = draw(st.integers(2, 40))
+    picks = [draw(st.integers(0, len(decls) - 1)) for _ in range(n)]
+    # bias: neighbours sharing category and value characters across models
+    if draw(st.booleans()):
+        bycv = {}
+        for i, d in enumerate(decls):
+            bycv.setdefault(d.mcv[1:], []).append(i)
+        groups = [g for g in bycv.values() if len(g) > 1]
+        for k in range(0, n - 1, 2):
+            g = draw(st.sampled_from(groups))
+            a, b_ = draw(st.permutations(g))[:2]
+            picks[k], picks[k + 1] = a, b_
+    return {"picks": picks, "seeds": [draw(st.integers(0, 5)) for _ in range(n)], "nstreams": draw(st.integers(1, 3)),
+            "where": [draw(st.integers(0, 2)) for _ in range(n)]}
+
+
+def run_dump_seq(case, ctx):
+    models, decls, bymcv = catalogue()
+    b = ctx.b("plain")
+    ns = case["nstreams"]
+    streams = [{"loom": "n.0", "pid": 1, "tid": 1 + i, "app": 1, "cpus": [[0, 0]] if i == 0 else None,
+                "path": "s%d" % i, "events": []} for i in range(ns)]
+    expect = []
+    clk = 1000
+    for k, (pi, sd, wh) in enumerate(zip(case["picks"], case["seeds"], case["where"])):
+        d = decls[pi]
+        vals = gen_values(d, sd)
+        pl = encode_args(d, vals) if d.args else b""
+        clk += 1 + (k % 3)
+        e = T.jumbo(d.mcv, clk, pl) if d.jumbo else T.ev(d.mcv, clk, pl.hex())
+        si = wh % ns
+        streams[si]["events"].append(e)
+        expect.append("%10d  %s  %s  %s" % (clk, d.mcv, "s%d" % si, expected_text(d, vals)))
+    dd = ctx.newdir()
+    try:
+        T.write_trace({"streams": streams}, dd)
+        r = tools.dump(b, dd)
+        if not r.ok:
+            raise Violation("ovnidump failed on a sequence of listed events: %s" % r.brief())
+        lines = [l for l in r.out.decode("latin-1").split("\n") if l]
+        if lines != expect:
+            k = next((i for i, (a, b_) in enumerate(zip(lines, expect)) if a != b_), min(len(lines), len(expect)))
+            raise Violation("ovnidump line %d of a %d-event sequence: %r, expected %r (previous event: %r)" % (
+                k, len(expect), lines[k] if k < len(lines) else None, expect[k] if k < len(expect) else None,
+                expect[k - 1] if k else None))
+    finally:
+        ctx.rmdir(dd)
+    return {"nt": True, "cls": ["dump-sequence"]}
+
+
 def parts(tier):
     return [
         Part("ovnievents-vs-doc", run_catalogue, enum=lambda ctx: iter([{"catalogue": 1}])),
         Part("listed-events", run_listed, enum=enum_listed),
+        Part("dump-sequences", run_dump_seq, strategy=lambda ctx: dump_sequences(), budget={"quick": 1500, "thorough": 30000}),
         Part("unlisted-codes", run_unlisted, enum=enum_unlisted, cap_s={"quick": 400, "thorough": 1200}),
     ]
